@@ -4,6 +4,7 @@
 From Coq Require Import List ZArith Arith Bool QArith Qcanon.
 From PV Require Import Base.Index Np.Array Model.Sparse Alg.C13Samplers Alg.C13Solver Alg.C13Steps Alg.C13Harness.
 Import ListNotations.
+Local Open Scope nat_scope.
 
 (* ================================ stochastic solver bookkeeping ================================ *)
 Section SolverProps.
@@ -96,10 +97,10 @@ Print Assumptions C13_bounds_epoch.
 Local Open Scope Z_scope.
 (* one uniform draw u = a/D in (0,1] gives a subscript inside the mode; u = 0 gives -1 (finding A-48) *)
 Theorem C13_draw_in_range : forall D a d, 0 < D -> 0 < a <= D -> 0 < d -> 0 <= draw_sub D a d < d.
-Proof. exact draw_sub_range. Qed.
+Proof. intros D a d HD. exact (draw_sub_range D HD a d). Qed.
 Print Assumptions C13_draw_in_range.
 Theorem C13_draw_zero_out_of_range : forall D d, 0 < D -> draw_sub D 0 d = -1.
-Proof. exact draw_sub_zero. Qed.
+Proof. intros D d HD. exact (draw_sub_zero D HD d). Qed.
 Print Assumptions C13_draw_zero_out_of_range.
 (* semi-stratified "zero" subscripts are inside the mode but never its first index for u > 0 (finding A-48) *)
 Theorem C13_draw_semi : forall D a d, 0 < D -> 0 < d ->
